@@ -78,6 +78,14 @@ def snapshot_real(c):
     return nodes, lines, [n.index for n in c.io_nodes]
 
 
+def name_structure(c):
+    """structure of a circuit up to renumbering: nodes by (name, is fork) with kind, connections by names and pins, port order by name, counts"""
+    key = lambda n: (n.name, n.kind == '__fork__')
+    nodes = {key(n): n.kind for n in c.nodes}
+    conns = sorted((key(l.driver), l.driver_pin, key(l.reader), l.reader_pin) for l in c.lines)
+    return nodes, conns, [key(n) for n in c.io_nodes], len(c.nodes), len(c.lines)
+
+
 def model_from_real(c):
     m = Model()
     for n in c.nodes:
